@@ -9,6 +9,7 @@ PRELUDE = r'''
 #include <Fastor/Fastor.h>
 #include "vt.h"
 #include <limits>
+#include <setjmp.h>
 using namespace Fastor;
 
 namespace c08 {
@@ -107,7 +108,13 @@ template<> struct Bnd<double> {
 template<class R> inline R rnd_bits(vt::Rng& r) { uint64_t w = r.next(); R v; memcpy(&v, &w, sizeof(R)); return v; }
 
 enum Mode { SMALL = 0, BITS = 1 };
-enum Gen { G_ANY = 0, G_NZB = 1, G_EXDIV = 2, G_EXDIV_SV = 3, G_SQUARE = 4, G_PROD = 5, G_POS = 6, G_POSNEG = 7, G_SEQ = 8, G_UNIT = 9 };
+// guard-page cases: a masked access that touches a disabled lane faults; the fault is caught and RECORDED (out.fault = 1)
+static sigjmp_buf g_jb; static volatile int g_faulted = 0; static struct sigaction g_old_segv, g_old_bus;
+inline void gp_handler(int) { g_faulted = 1; siglongjmp(g_jb, 1); }
+inline void gp_arm() { g_faulted = 0; struct sigaction sa; memset(&sa, 0, sizeof sa); sa.sa_handler = gp_handler; sa.sa_flags = SA_ONSTACK | SA_NODEFER;
+                       sigaction(SIGSEGV, &sa, &g_old_segv); sigaction(SIGBUS, &sa, &g_old_bus); }
+inline void gp_disarm() { sigaction(SIGSEGV, &g_old_segv, nullptr); sigaction(SIGBUS, &g_old_bus, nullptr); }
+enum Gen { G_ANY = 0, G_NZB = 1, G_EXDIV = 2, G_EXDIV_SV = 3, G_SQUARE = 4, G_PROD = 5, G_POS = 6, G_POSNEG = 7, G_SEQ = 8, G_UNIT = 9, G_EXDIV_RV = 10 };
 
 template<class R> inline R small_r(vt::Rng& r, int range, int sc, bool nonzero = false) {
     int n; do { n = r.range(-range, range); } while (nonzero && n == 0);
@@ -152,6 +159,7 @@ template<class R> struct GenT<std::complex<R>, true> {
             case G_EXDIV: return (which == 1 || which == 3) ? unitish(r) : T((R)(8 * r.range(-range, range)), (R)(8 * r.range(-range, range)));
             case G_EXDIV_SV: return which == 1 ? unitish(r) : T((R)(8 * r.range(-range, range)), (R)(8 * r.range(-range, range)));
             case G_UNIT: return unitish(r);
+            case G_EXDIV_RV: return which == 0 ? unitish(r) : T((R)(8 * r.range(-range, range)), (R)(8 * r.range(-range, range)));
             case G_PROD: { static const int t[4][2] = {{1,0},{0,1},{-1,0},{0,-1}}; static const int t3[6][2] = {{1,1},{1,-1},{2,0},{0,2},{1,0},{0,-1}};
                            if (lane < 4) { int k = r.range(0, 5); return T((R)t3[k][0], (R)t3[k][1]); } int k = r.range(0, 3); return T((R)t[k][0], (R)t[k][1]); }
             default: return T(small_r<R>(r, range, sc), small_r<R>(r, range, sc));
@@ -169,7 +177,9 @@ template<class T, class ABI> struct K {
     static const int G = 4;
     static const size_t AL = 64 / sizeof(T) ? 64 / sizeof(T) : 1;      // elements in front of the destination body (keeps the body 64-byte aligned)
     const char *id, *Ts, *abis, *op, *form;
-    int mode, sc, osc, gen, range, ndraw, iter /*0 none, 1 offsets, 2 masks*/, aligned;
+    int mode, sc, osc, gen, range, ndraw, iter /*0 none, 1 offsets, 2 masks, 3 remainder masks at a guard page*/, aligned;
+    T* GP = nullptr; int rem = 0;    // iter 3: GP[0..rem) are the last bytes before a PROT_NONE page, lanes >= rem lie inside it
+    static vt::PageArena& arena() { static vt::PageArena a(4); return a; }
     const unsigned* masks = nullptr; int nmasks = 0;
     int it = -1, d = 0, off = 0; unsigned mask = 0;
     alignas(64) T A[N]; alignas(64) T B[N]; alignas(64) T C[N]; T s; R sr;
@@ -188,11 +198,12 @@ template<class T, class ABI> struct K {
 
     __attribute__((noinline)) bool next() {
         ++it;
-        int noff = iter == 1 ? (int)N : 1, nm = iter == 2 ? nmasks : 1;
+        int noff = iter == 1 ? (int)N : 1, nm = iter == 2 ? nmasks : (iter == 3 ? (int)N + 1 : 1);
         if (it >= ndraw * noff * nm) return false;
         d = it / (noff * nm);
         int oi = (it / nm) % noff, mi = it % nm;
         mask = iter == 2 ? masks[mi] : 0u;
+        if (iter == 3) { rem = mi; mask = rem >= 32 ? 0xFFFFFFFFu : ((1u << rem) - 1u); }
         off = iter == 1 ? oi : (iter == 2 ? (int)((mi * 5 + d) % (int)N) : 0);
         if (aligned) off = 0;
         cid = std::string(id) + "/" + std::to_string(it);
@@ -202,11 +213,12 @@ template<class T, class ABI> struct K {
         for (size_t i = 0; i < N; ++i) B[i] = GenT<T>::one(r, mode, gen, range, sc, 1, (int)i);
         for (size_t i = 0; i < N; ++i) C[i] = GenT<T>::one(r, mode, gen, range, sc, 2, (int)i);
         s = GenT<T>::one(r, mode, gen, range, sc, 3, 0);
-        sr = (gen == G_EXDIV || gen == G_EXDIV_SV) ? pow2_r<R>(r) : small_r<R>(r, range > 30 ? 30 : range, sc, gen == G_NZB);
+        sr = (gen == G_EXDIV || gen == G_EXDIV_SV) ? pow2_r<R>(r) : gen == G_EXDIV_RV ? (R)(8 * r.range(-range, range)) : small_r<R>(r, range > 30 ? 30 : range, sc, gen == G_NZB);
         for (size_t i = 0; i < 2 * N; ++i) M[i] = GenT<T>::one(r, mode, G_ANY, range, sc, 0, 0);
         for (size_t i = 0; i < AL + 2 * N + G; ++i) blk[i] = vt::Guarded<T>::sentinel();
         for (size_t i = 0; i < 2 * N; ++i) { pre[i] = GenT<T>::one(r, SMALL, G_ANY, 500, 1, 0, 0); D[i] = pre[i]; }
-        asm volatile("" : : "r"(A), "r"(B), "r"(C), "r"(M), "r"(blk), "r"(&s), "r"(&sr) : "memory");
+        if (iter == 3) { GP = (T*)arena().at_end((size_t)rem * sizeof(T)); for (int i = 0; i < rem; ++i) GP[i] = has_M ? M[i] : pre[i]; off = 0; }
+        asm volatile("" : : "r"(A), "r"(B), "r"(C), "r"(M), "r"(blk), "r"(&s), "r"(&sr), "r"(GP) : "memory");
         a = V(A, false); b = V(B, false); c = V(C, false);
         return true;
     }
@@ -225,6 +237,7 @@ template<class T, class ABI> struct K {
         if (has_D) put_arr(ev.s, "pre", pre, 2 * N, false, 1);
         if (has_mask) ev.num("mask", (long long)mask);
         if (has_off || has_mask) ev.num("off", off);
+        if (iter == 3) ev.num("rem", rem);
     }
     static bool out_w(int mode) { return mode == BITS || std::is_integral<R>::value; }
 
@@ -236,6 +249,7 @@ template<class T, class ABI> struct K {
         vt::Ev ev("Simd"); head(ev);
         if (rf) put_arr(ev.s, "ref", rf, N, true, 1);
         ev.s += "},\"out\":{\"n\":"; ev.s += std::to_string((long long)VR::Size);
+        if (iter == 3) ev.num("fault", g_faulted);
         put_arr(ev.s, "v", o, VR::Size, mode == BITS || std::is_integral<RR>::value, osc);
         ev.s += "}"; ev.emit();
     }
@@ -271,6 +285,15 @@ template<class T, class ABI> struct K {
         put_arr(ev.s, "blk", D - G, 2 * N + 2 * G, false, 1);
         ev.s += "}"; ev.emit();
     }
+    // memory in front of the guard page after a remainder-masked store
+    __attribute__((noinline)) void out_gp() {
+        asm volatile("" : : "r"(GP) : "memory");
+        vt::Ev ev("Simd"); head(ev);
+        ev.s += "},\"out\":{\"n\":"; ev.s += std::to_string((long long)N);
+        ev.num("fault", g_faulted);
+        put_arr(ev.s, "w", GP, (size_t)rem, false, 1);
+        ev.s += "}"; ev.emit();
+    }
     // lanes through operator[] and operator()
     __attribute__((noinline)) void out_idx(const V& r) {
         T o[N], p[N]; for (size_t i = 0; i < N; ++i) { o[i] = r[i]; p[i] = r(i); }
@@ -302,6 +325,15 @@ template<class T, class ABI> struct K {
     }
 };
 template<class T, class ABI> const size_t K<T, ABI>::N;
+// L2 binding (Mask.tla): the declared width of the mask parameter of mask_store, read off the member's type
+template<class V, class M> constexpr int mask_bits_of(void (V::*)(typename V::scalar_value_type*, M, bool) const) { return 8 * (int)sizeof(M); }
+template<class T, class ABI> static void meta_maskbits(const char* Ts, const char* abis, const char* abin) {
+    using V = SIMDVector<T, ABI>;
+    vt::Ev ev("Meta"); ev.str("case", std::string("meta/maskbits/") + Ts + "/" + abin);
+    ev.s += ",\"in\":{\"T\":\""; ev.s += Ts; ev.s += "\""; ev.str("abi", abis).num("N", (long long)V::Size);
+    ev.s += "},\"out\":{\"bits\":" + std::to_string(mask_bits_of<V>(&V::mask_store)) + "}";
+    ev.emit();
+}
 } // namespace c08
 using c08::wadd; using c08::wsub; using c08::wmul; using c08::wdiv; using c08::wneg; using c08::wabs; using c08::wmin; using c08::wmax; using c08::wsqrt;
 '''
@@ -437,10 +469,12 @@ def entry(op, form, N, U=None):
         return "Do", "k.a.aligned_store(k.D); k.out_blk();"
     if op == "mload":
         return "Mmc", {"zu": "V r; r.mask_load(k.M + k.off, k.mask, false); k.out_v(r);", "pu": "V r(k.c); r.mask_load(k.M + k.off, k.mask, false); k.out_v(r);",
-                       "pa": "V r(k.c); r.mask_load(k.M, k.mask, true); k.out_v(r);", "pd": "V r(k.c); r.mask_load(k.M + k.off, k.mask); k.out_v(r);"}[form]
+                       "pa": "V r(k.c); r.mask_load(k.M, k.mask, true); k.out_v(r);", "pd": "V r(k.c); r.mask_load(k.M + k.off, k.mask); k.out_v(r);",
+                       "gp": "V r(k.c); c08::gp_arm(); if (sigsetjmp(c08::g_jb, 1) == 0) { r.mask_load(k.GP, k.mask, false); } c08::gp_disarm(); k.out_v(r);"}[form]
     if op == "mstore":
         return "Dm", {"u": "k.a.mask_store(k.D + k.off, k.mask, false); k.out_blk();", "a": "k.a.mask_store(k.D, k.mask, true); k.out_blk();",
-                      "d": "k.a.mask_store(k.D + k.off, k.mask); k.out_blk();"}[form]
+                      "d": "k.a.mask_store(k.D + k.off, k.mask); k.out_blk();",
+                      "gp": "c08::gp_arm(); if (sigsetjmp(c08::g_jb, 1) == 0) { k.a.mask_store(k.GP, k.mask, false); } c08::gp_disarm(); k.out_gp();"}[form]
     raise KeyError((op, form))
 
 
@@ -472,7 +506,7 @@ def block(c, idx):
 
 
 def n_events(c):
-    return c["ndraw"] * (c["N"] if c["iter"] == 1 else (len(c["masks"]) if c["iter"] == 2 else 1))
+    return c["ndraw"] * (c["N"] if c["iter"] == 1 else (len(c["masks"]) if c["iter"] == 2 else (c["N"] + 1 if c["iter"] == 3 else 1)))
 
 
 class C08(Check):
@@ -508,7 +542,28 @@ class C08(Check):
         if len(ids) != len(items):
             raise ToolFailure("GenSimd: case ids are not unique")
         self.n_expected = sum(n_events(c) for c in items)
+        self.mbits = {(c["T"], abi_name(c)): c["mbits"] for c in items}
         return items
+
+    def post_events(self, ctx, traces):
+        # MODEL-DRIFT report (never a verdict): pure key comparison of the declared mask width recorded from the code with the L2 model's table
+        drift = set()
+        for cfgname, evs in traces.items():
+            for ev in evs:
+                if ev.get("e") == "Meta":
+                    key = tuple(ev["case"].split("/")[2:4])
+                    if self.mbits.get(key) != ev["out"]["bits"]:
+                        drift.add("%s/%s code %d model %s" % (key[0], key[1], ev["out"]["bits"], self.mbits.get(key)))
+        if drift:
+            ctx.notes.append("MODEL-DRIFT: Mask.tla DeclBits disagrees with the declared mask parameter width: " + "; ".join(sorted(drift)))
+            log("MODEL-DRIFT (not a violation): " + "; ".join(sorted(drift)))
+        return traces
+
+    def model_checks(self, ctx):
+        model_check(ctx, "MC_Mask", "MC_Mask.cfg", workers=1)
+
+    def nontrivial(self, ev):
+        return ev["e"] == "Simd"
 
     def units(self, ctx, plan, cfgname):
         isa = cfgname.split("-")[0]
@@ -516,13 +571,15 @@ class C08(Check):
         for c in plan:
             if c["abi"] in ISA_ABIS[isa]:
                 groups.setdefault((c["T"], abi_name(c)), []).append(c)
-        units, per = [], 90
+        units, per = [], 90  # ~28 ms per case on top of ~2 s for the headers
         for (T, ab), cs in sorted(groups.items()):
-            cs.sort(key=lambda c: c["case"])
+            cs.sort(key=lambda c: (c["form"] == "gp", c["case"]))       # guard-page cases last: a fault ends the binary
             for ci in range(0, len(cs), per):
                 ch = cs[ci:ci + per]
                 src = PRELUDE + "\n".join(block(c, i) for i, c in enumerate(ch))
                 src += "\nint main(int argc, char** argv) {\n    vt::open(argc, argv, \"%s\");\n    vt::install_handlers();\n" % cfgname
+                if ci == 0 and any(c["op"] == "mstore" for c in cs):
+                    src += '    c08::meta_maskbits<%s,%s>("%s","%s","%s");\n' % (CXX_T[T], abi_cxx(cs[0]), T, cs[0]["abi"], ab)
                 src += "\n".join("    case_%d();" % i for i in range(len(ch)))
                 src += "\n    vt::close_ok();\n    return 0;\n}\n"
                 units.append(("sv_%s_%s_%02d" % (T, ab, ci // per), src, []))
